@@ -2,7 +2,7 @@
 from fractions import Fraction as Fr
 import numpy as np
 from harness import coqio as Q
-from harness.impl import make_probe, rand_unimodular, exc_name
+from harness.impl import poke, make_probe, rand_unimodular, exc_name
 from harness.props import c14
 
 CORR = "C06_corr"
@@ -83,6 +83,7 @@ def build(case):
                                   physical_types=(f"custom:w{100 + k}", f"custom:w{100 + k + 1}"))
             continue
         cube.extra_coords.add(f"e{k}", ax, (np.arange(shape[ax]) * float(s) + icpt) * u.m, physical_types=f"custom:w{100 + k}")
+    poke(cube, case["key"])
     if case["post"] == "slice":
         cube = cube[tuple(slice(a, None) for a in case["arg"])]
     elif case["post"] == "rebin":
